@@ -447,6 +447,37 @@ def _template(repo, lang):
     return out, names
 
 
+LEGEND_SHEET = "__Legend_tax_report_jp"          # f"__Legend_{cls.get_name()}": get_name() is the module name
+
+
+def _legend_template(repo, lang):
+    """the legend sheet of the shipped template -- its geometry DIFFERS between the languages --: rows, columns, non-empty
+    cells, the row (< 100) whose first cell equals the translated "Accounting Method" (what _initialize_output_file looks
+    for), and the translated sheet name"""
+    import ezodf
+    p = os.path.join(repo, "src", "rp2", "plugin", "report", "data", "jp", f"template_tax_report_jp_{lang}.ods")
+    doc = ezodf.opendoc(p)
+    if [sh.name for sh in doc.sheets].count(LEGEND_SHEET) != 1:
+        raise Unrecognised(f"template {lang}: sheet {LEGEND_SHEET}")
+    sh = doc.sheets[LEGEND_SHEET]
+    t = gettext.translation("messages", localedir=os.path.join(repo, "src", "rp2", "locales"), languages=[lang])
+    label = t.gettext("Accounting Method")
+    cells = []
+    for r in range(sh.nrows()):
+        for c in range(sh.ncols()):
+            x = sh[r, c]
+            if x.formula is not None or x.value not in (None, ""):
+                if x.formula is not None or not isinstance(x.value, str):
+                    raise Unrecognised(f"template {lang}/{LEGEND_SHEET}: non-text cell at {r},{c}")
+                cells.append((r, c))
+    row = None
+    for r in range(min(100, sh.nrows())):
+        if sh[r, 0].value == label:
+            row = r
+            break
+    return sh.nrows(), sh.ncols(), cells, row, t.gettext("Legend")
+
+
 def _texts(repo, lang):
     t = gettext.translation("messages", localedir=os.path.join(repo, "src", "rp2", "locales"), languages=[lang])
     name, summ, transfer = t.gettext("{}_{}"), t.gettext("{}_Summary"), t.gettext("Transfer")
@@ -497,7 +528,11 @@ def _frag_jp(repo):
     if not (isinstance(gs[0], ast.If) and _u(gs[0].test) == "from_date != MIN_DATE and to_date != MAX_DATE" and isinstance(gs[0].body[0], ast.Raise)):
         raise Unrecognised("generate: from/to restriction")
     gsrc = _u(g)
-    for need in ("for asset, computed_data in asset_to_computed_data.items():", "self.__generate_asset(computed_data, output_file)",
+    for need in ("output_file = self._initialize_output_file(country=country, legend_data=[], "
+                 "years_2_accounting_method_names=years_2_accounting_method_names, output_dir_path=output_dir_path, "
+                 "output_file_prefix=output_file_prefix, output_file_name=self.OUTPUT_FILE, template_path=template_path, "
+                 "template_sheets_to_keep=_TEMPLATE_SHEETS_TO_KEEP, from_date=from_date, to_date=to_date)",
+                 "for asset, computed_data in asset_to_computed_data.items():", "self.__generate_asset(computed_data, output_file)",
                  "del output_file.sheets[self.ASSET_TEMPLATE_SHEET]", "del output_file.sheets[self.SUMMARY_TEMPLATE_SHEET]"):
         if need not in gsrc:
             raise Unrecognised(f"generate: `{need}`")
@@ -519,6 +554,7 @@ def _frag_jp(repo):
         elif t != tmpl:
             raise Unrecognised(f"template geometry of {lang} differs from {LANGS[0]}")
     texts = [_texts(repo, lang) for lang in LANGS]
+    legends = [_legend_template(repo, lang) for lang in LANGS]
 
     def cells(l):
         return gen.coq_list([f"({r}, {c})" for r, c in l])
@@ -558,6 +594,18 @@ def _frag_jp(repo):
     s += "Definition gen_jp_transfer (lang : Z) : str :=\n"
     for k, (a, b, tr) in enumerate(texts):
         s += f"  {'if lang =? ' + str(k) + ' then' if k < len(texts) - 1 else ''} {_lit(tr)}{' else' if k < len(texts) - 1 else '.'}\n"
+    s += "(* the template's legend sheet per language: size, non-empty cells, the row of the translated \"Accounting Method\", translated name *)\n"
+
+    def per_lang(name, ty, vals):
+        t = f"Definition {name} (lang : Z) : {ty} :=\n"
+        for k, v in enumerate(vals):
+            t += f"  {'if lang =? ' + str(k) + ' then' if k < len(vals) - 1 else ''} {v}{' else' if k < len(vals) - 1 else '.'}\n"
+        return t
+    s += per_lang("gen_jp_legend_rows", "Z", [str(x[0]) for x in legends])
+    s += per_lang("gen_jp_legend_cols", "Z", [str(x[1]) for x in legends])
+    s += per_lang("gen_jp_legend_cells", "list (Z * Z)", [cells(x[2]) for x in legends])
+    s += per_lang("gen_jp_legend_method_row", "option Z", ["None" if x[3] is None else f"(Some {x[3]})" for x in legends])
+    s += per_lang("gen_jp_legend_name", "str", [_lit(x[4]) for x in legends])
     return s
 
 
